@@ -327,10 +327,10 @@ def ite(c, a, b):
 
 class SymInt:
     """Python-int semantics (unbounded) over a z3 Int term with a sound interval."""
-    __slots__ = ('e', 'lo', 'hi', 'bits')
+    __slots__ = ('e', 'lo', 'hi', 'bits', 'prov')
 
     def __init__(self, e, lo=None, hi=None, bits=None):
-        self.e = e; self.lo = lo; self.hi = hi
+        self.e = e; self.lo = lo; self.hi = hi; self.prov = None
         self.bits = bits      # over-approximation of the set bits (only if lo >= 0)
 
     def conc(self):
@@ -402,7 +402,13 @@ class SymInt:
         if isinstance(o, str): return NotImplemented
         raise Unsupported('modulo by a symbolic value')
     def __divmod__(self, o): return (self // o, self % o)
-    def __truediv__(self, o): raise Unsupported('float division of a symbolic int')
+    def __truediv__(self, o):
+        k = o if type(o) is int else (o.conc() if isinstance(o, SymInt) else None)
+        if k is None or k == 0 or (abs(k) & (abs(k) - 1)) != 0 or abs(k) > 1024:
+            raise Unsupported('float division of a symbolic int by anything but +-2^j')
+        if self.lo is None or self.hi is None or self.lo <= -(1 << 64) or self.hi >= (1 << 64):
+            raise Unsupported('float division of a symbolic int beyond 64 bits')
+        return SymQuot(self, k)
     def __rtruediv__(self, o): raise Unsupported('float division by a symbolic int')
     def __pow__(self, o, m=None): raise Unsupported('pow on symbolic int')
     def __rpow__(self, o, m=None):
@@ -509,7 +515,7 @@ class SymInt:
     def __index__(self):
         c = self.conc()
         if c is not None: return c
-        raise Unsupported('concretisation of a symbolic int (__index__)')
+        return pinned_value(self, '__index__')
     def __int__(self):
         c = self.conc()
         if c is not None: return c
@@ -522,6 +528,32 @@ class SymInt:
     def to_bytes(self, length=1, byteorder='big', *, signed=False):
         from . import pysym
         return pysym.m_int_to_bytes(self, length, byteorder, signed=signed)
+
+
+class SymQuot:
+    """x / k as computed by CPython (correctly rounded binary64 quotient of two ints), k = +-2^j:
+    fl(x) / k exactly. Only int() (truncation) is supported on it."""
+    def __init__(self, x, k): self.x = x; self.k = k
+
+    def trunc(self):
+        x, k = self.x, self.k
+        a = ite(x < 0, -x, x)
+        a = clamp(a, 0, max(abs(x.lo), abs(x.hi)))
+        top = a.hi.bit_length()
+        fa = a
+        for e in range(53, max(top, 53)):               # 2^e <= a < 2^(e+1): spacing 2^(e-52)
+            g = 1 << (e - 52)
+            q = a // g; r = a % g
+            up = bor(r * 2 > g, band(eq(r * 2, g), eq(q % 2, 1)))
+            rounded = (q + ite(up, 1, 0)) * g
+            fa = ite(a >= (1 << e), rounded, fa)
+        t = fa // abs(k)
+        neg = bnot(eq(x < 0, k < 0)) if not isinstance(x < 0, bool) else ((x < 0) != (k < 0))
+        return ite(neg, -t, t)
+
+    def __int__(self): raise Unsupported('concretisation of a float quotient')
+    def __float__(self): raise Unsupported('concretisation of a float quotient')
+    def __getattr__(self, n): raise Unsupported('operation %s on a symbolic float quotient' % n)
 
 
 def _install_folding():
@@ -547,6 +579,20 @@ def _install_folding():
 
 
 _install_folding()
+
+
+def pinned_value(x, what):
+    """value of x if the path condition admits exactly one (sound: checked by the solver),
+    else a case split over a small interval, else Unsupported."""
+    if CUR is None or CUR.mode != 'sym': raise Unsupported('concretisation of a symbolic int (%s)' % what)
+    if not CUR.sat(): raise PathAbort()
+    v0 = CUR.solver.model().eval(x.e, model_completion=True).as_long()
+    if not CUR.sat(x.e != v0): return v0
+    if x.lo is not None and x.hi is not None and x.hi - x.lo < 16:
+        for v in range(x.lo, x.hi):
+            if fork(x.e == v): return v
+        return x.hi
+    raise Unsupported('concretisation of a symbolic int (%s) with more than 16 candidate values' % what)
 
 
 def clamp(x, lo, hi):
